@@ -1495,6 +1495,10 @@ int scpiParser_parseAllProgramData(lex_state_t * state, scpi_token_t * token, in
         result = scpiParser_parseProgramData(state, &tmp);
         if (tmp.type != SCPI_TOKEN_UNKNOWN) {
             token->len += result;
+        } else if ((paramCount == 0) && (state->pos == token->ptr)) {
+            /* header followed by white space only - there is no program data at all */
+            token->len = 0;
+            break;
         } else {
             token->type = SCPI_TOKEN_UNKNOWN;
             token->len = 0;
